@@ -189,6 +189,10 @@ inductive QOp
   | sgate (par : Nat) (mode : Nat)                     -- `Sgate(r[par]) | q[mode]`
   | dgate (par : Nat) (mode : Nat)                     -- `Dgate(|alpha[par]|, arg alpha[par]) | q[mode]`
   | rgate (par : Nat) (mode : Nat)                     -- `Rgate(theta[par]) | q[mode]`
+  | s2gate (par : Nat) (m1 m2 : Nat)                   -- `S2gate(t[par]) | (q[m1], q[m2])`
+  | fock (par : Nat) (mode : Nat)                      -- `Fock(input_state[par]) | q[mode]`
+  | loss (mode : Nat)                                  -- `LossChannel(1 - loss) | q[mode]`
+  | measureFock (modes : List Nat)                     -- `MeasureFock() | q`
 deriving DecidableEq, Repr
 
 /-- `TimeEvolution(w, t)`: one `Rgate(theta[i])` on mode `i` -/
@@ -244,6 +248,129 @@ def probEvent (P : List Nat → K) (photons maxCount modes : Nat) : K :=
   sumL (((Apps.orbits photons).filter fun o => Apps.listMax o ≤ maxCount).map fun o => probOrbit P o modes)
 
 end ring2
+
+/-! ### the sampling programs of `vibronic.sample`, `dynamics.sample_fock / sample_tmsv / sample_coherent` -/
+
+def lossOps (loss : Bool) (modes : Nat) : List QOp := if loss then (List.range modes).map .loss else []
+
+/-- `vibronic.sample`: `anyT` = some two-mode squeezing parameter is non-zero (then `2N` modes and one `S2gate` per
+pair, zero parameters included), `loss` = the loss parameter is non-zero -/
+def vibSampleModes (n : Nat) (anyT : Bool) : Nat := if anyT then 2 * n else n
+
+def vibSampleOps (n : Nat) (anyT loss : Bool) : List QOp :=
+  (if anyT then (List.range n).map fun i => QOp.s2gate i i (i + n) else []) ++ vibronicOps n ++
+  lossOps loss (vibSampleModes n anyT) ++ [.measureFock (List.range (vibSampleModes n anyT))]
+
+/-- columns appended to the samples: `N` zero columns exactly when the `N`-mode program was run (after the `fix:`) -/
+def vibSamplePad (n : Nat) (anyT : Bool) : Nat := if anyT then 0 else n
+
+/-- the interferometer / time-evolution / interferometer core shared by the three `dynamics` samplers
+(`which = 1`: `Ul.T`, `which = 2`: `Ul`) -/
+def dynCore (n : Nat) : List QOp :=
+  [.interferometer 1 (List.range n)] ++ timeEvolutionOps n ++ [.interferometer 2 (List.range n)]
+
+def dynFockOps (n : Nat) (loss : Bool) : List QOp :=
+  ((List.range n).map fun i => QOp.fock i i) ++ dynCore n ++ lossOps loss n ++ [.measureFock (List.range n)]
+
+def dynTmsvOps (n : Nat) (loss : Bool) : List QOp :=
+  ((List.range n).map fun i => QOp.s2gate i i (i + n)) ++ dynCore n ++ lossOps loss (2 * n) ++
+  [.measureFock (List.range (2 * n))]
+
+def dynCoherentOps (n : Nat) (loss : Bool) : List QOp :=
+  ((List.range n).map fun i => QOp.dgate i i) ++ dynCore n ++ lossOps loss n ++ [.measureFock (List.range n)]
+
+/-- modes an operation acts on -/
+def QOp.modes : QOp → List Nat
+  | .interferometer _ ms => ms
+  | .sgate _ m => [m] | .dgate _ m => [m] | .rgate _ m => [m] | .fock _ m => [m] | .loss m => [m]
+  | .s2gate _ a b => [a, b]
+  | .measureFock ms => ms
+
+/-! ### `vibronic.energies`, `utils.duschinsky`, `utils.marginals` -/
+
+section chem
+variable [Zero K] [One K] [Add K] [Sub K] [Neg K] [Mul K] [NatCast K]
+
+/-- `np.dot(counts, freqs)` -/
+def dotCounts : List Nat → (Nat → K) → Nat → K
+  | [], _, _ => 0
+  | c :: rest, f, k => (c : K) * f k + dotCounts rest f (k + 1)
+
+/-- `energies` of one sample: `Σ_{k<N} m_k ω'_k − Σ_{k<N} n_k ω_k`, the sample split at `len // 2` -/
+def energy (s : List Nat) (wp w : Nat → K) : K :=
+  dotCounts (s.take (s.length / 2)) wp 0 - dotCounts (s.drop (s.length / 2)) w 0
+
+/-- `duschinsky`: `U = Lf.T @ Li` (`a` = the `3N` Cartesian coordinates) -/
+def duschU (a : Nat) (Lf Li : Nat → Nat → K) : Nat → Nat → K := fun k l => sumTo a fun x => Lf x k * Li x l
+
+/-- `d = Lf.T * m**0.5 @ (ri - rf)`; `sm x = √m_x` -/
+def duschD (a : Nat) (Lf : Nat → Nat → K) (sm ri rf : Nat → K) : Nat → K := fun k =>
+  sumTo a fun x => Lf x k * sm x * (ri x - rf x)
+
+/-- `delta = d @ l0_inv` with `l0_inv = np.diag(linv)` -/
+def duschDelta (a M : Nat) (Lf : Nat → Nat → K) (sm ri rf linv : Nat → K) : Nat → K := fun k =>
+  sumTo M fun j => duschD a Lf sm ri rf j * diag linv j k
+
+/-- `marginals`: the calls `density_matrix_element(reduced(mode), [i], [i])` in the order they are made -/
+def marginalCalls (nModes nMax : Nat) : List (Nat × Nat) :=
+  (List.range nModes).flatMap fun mode => (List.range nMax).map fun i => (mode, i)
+
+/-- rows / columns `reduced_gaussian(mu, V, mode)` keeps (xxpp ordering, `n` modes) -/
+def reducedIdx (n mode : Nat) : List Nat := [mode, mode + n]
+
+inductive MargErr | notSquare | lenMismatch | nMax
+deriving DecidableEq, Repr
+
+/-- argument checks of `marginals`; returns `(n_modes, n_max)` = the shape of the result -/
+def marginalsShape (lenMu rowsV colsV : Nat) (nMax : Int) : Except MargErr (Nat × Nat) :=
+  if rowsV ≠ colsV then .error .notSquare
+  else if lenMu ≠ rowsV then .error .lenMismatch
+  else if nMax ≤ 0 then .error .nMax
+  else .ok (lenMu / 2, nMax.toNat)
+
+end chem
+
+/-! ### hafnian by the perfect-matching recursion; the GBS weight of a pattern -/
+
+/-- rows / columns of the sub-matrix `A_n`: mode `k` repeated `n_k` times -/
+def expand : List Nat → Nat → List Nat
+  | [], _ => []
+  | c :: rest, k => List.replicate c k ++ expand rest (k + 1)
+
+/-- all ways to take one element out of a list: `(element, rest)` -/
+def picks : List Nat → List (Nat × List Nat)
+  | [] => []
+  | x :: xs => (x, xs) :: (picks xs).map fun p => (p.1, x :: p.2)
+
+section haf
+variable [Zero K] [One K] [Add K] [Mul K]
+
+/-- `Σ` over the partner of the first index, recursively (fuel = number of indices) -/
+def hafAux (A : Nat → Nat → K) : Nat → List Nat → K
+  | _, [] => 1
+  | 0, _ :: _ => 0
+  | fuel + 1, i :: rest => sumL ((picks rest).map fun p => A i p.1 * hafAux A fuel p.2)
+
+def haf (A : Nat → Nat → K) (idx : List Nat) : K := hafAux A idx.length idx
+
+/-- `|Haf(A_n)|²` for a real matrix: the `θ`-dependent part of the probability of pattern `n` up to `1/Z` -/
+def gbsWeight (A : Nat → Nat → K) (n : List Nat) : K := haf A (expand n 0) * haf A (expand n 0)
+
+/-- `Π_k f(k0 + k)^{n_k}` by recursion over the pattern -/
+def monoL (f : Nat → K) : List Nat → Nat → K
+  | [], _ => 1
+  | c :: rest, k => pw (f k) c * monoL f rest (k + 1)
+
+def prodL : List K → K
+  | [] => 1
+  | x :: xs => x * prodL xs
+
+/-- the finite exponential-family support built from the matrix itself: coefficient `c(n) = |Haf(A_n)|² / n!`
+(`invfact n = 1/Π n_k!`) for each listed pattern -/
+def gbsSupport (A : Nat → Nat → K) (invfact : List Nat → K) (pats : List (List Nat)) : Support K :=
+  pats.map fun n => (n, gbsWeight A n * invfact n)
+
+end haf
 
 /-! ### exact inverse (Gauss–Jordan, first non-zero pivot) — used by the driver to evaluate `A_to_cov`
 at rational points; its result is re-checked by multiplication (`isInverse`) on every call -/
